@@ -7,7 +7,7 @@
    Division by zero is an explicit result (C02_DivByZero), never a number. *)
 From Coq Require Import ZArith.
 From mathcomp Require Import all_ssreflect all_algebra.
-From DuneV Require Import C02_Model C02_Spec C02_Proofs C02_Proofs_Invert C02_Proofs_Closed C02_Proofs_Diag C02_Proofs_NoPivot.
+From DuneV Require Import C02_Model C02_Spec C02_Proofs C02_Proofs_Invert C02_Proofs_Closed C02_Proofs_Diag C02_Proofs_NoPivot C02_Proofs_Audit.
 Import GRing.Theory.
 Local Open Scope ring_scope.
 
@@ -103,6 +103,24 @@ Proof. exact (@diag_total F absr). Qed.
 Theorem C02_diag_det : forall d, (0 < size d)%N -> c02_diag_det ops d = \det (dmx absr (size d) d).
 Proof. exact (@diag_det F absr). Qed.
 
+(* ---- multi-step histories on one object (op seq of the correspondence check): A.invert(); A.invert() restores A,
+   and the determinant of the inverse is the inverse of the determinant; any pivot modes *)
+Theorem C02_invert_twice : forall n A p q B C, (0 < n)%N -> c02_wfm n A ->
+  c02_invert ops A p = C02_Ok B -> c02_invert ops B q = C02_Ok C ->
+  mx n C = mx n A /\ \det (mx n B) * \det (mx n A) = 1.
+Proof. exact (invert_twice absr0). Qed.
+
+(* ---- the build with DUNE_FMatrix_WITH_CHECKING (c02_solve_chk / c02_invert_chk, the code as it is: solve tests the
+   determinant for n = 1, 2, 3, invert for n = 1, 2 only; this optional mode for n <= 3 is OUTSIDE property C02 and is not
+   judged by the check): a singular matrix is reported by solve for every n >= 1 and by invert for every n except 3,
+   and nothing changes for nonsingular matrices *)
+Theorem C02_checked_singular : forall n A b piv, (0 < n)%N -> c02_wfm n A -> c02_wfv n b -> mx n A \notin unitmx ->
+  c02_solve_chk ops A b piv = C02_FMatrixError /\ (n != 3%N -> c02_invert_chk ops A piv = C02_FMatrixError).
+Proof. exact (checked_singular absr0). Qed.
+Theorem C02_checked_regular : forall n A b piv, (0 < n)%N -> c02_wfm n A -> mx n A \in unitmx ->
+  c02_solve_chk ops A b piv = c02_solve ops A b piv /\ c02_invert_chk ops A piv = c02_invert ops A piv.
+Proof. exact (checked_regular absr0). Qed.
+
 (* NOT A THEOREM: "inputs unchanged" — the model is purely functional (A, b are values); the impl side of the
    correspondence check compares A and b before/after every solve / determinant call (flag U). *)
 End Statements.
@@ -125,6 +143,9 @@ Print Assumptions C02_diag_solve.
 Print Assumptions C02_diag_invert.
 Print Assumptions C02_diag_complete.
 Print Assumptions C02_diag_det.
+Print Assumptions C02_invert_twice.
+Print Assumptions C02_checked_singular.
+Print Assumptions C02_checked_regular.
 
 (* ---- non-vacuity: the hypotheses are satisfiable by non-trivial values.  'F_7 with absr = representative. *)
 Definition c02_ex_abs7 (x : 'F_7) : nat := x.
